@@ -398,7 +398,29 @@ func ruleReseekDirection(c *Ctx, r *R) {
 			}
 			for _, g := range guardsOf(b) {
 				if cf, ok := g.asCmp(); ok && isConstInt(cf.y, 0) && cf.op == s.op {
-					if cc, ok := cf.x.(*ssa.Call); ok && strings.HasSuffix(path(cc.Call.Value), ".compare") && path(cc.Call.Args[0]) == "k" && path(cc.Call.Args[1]) == "c.k" {
+					cc, isCall := cf.x.(*ssa.Call)
+					var chain []*ssa.Call
+					// the comparison handed back by a helper that seeks first (order, ok := c.seekCompare(k)): the helper's
+					// only non-constant result at that position
+					if ex, isEx := cf.x.(*ssa.Extract); isEx && !isCall {
+						if hc, ok := ex.Tuple.(*ssa.Call); ok {
+							if hcal := staticCallee(&hc.Call); hcal != nil && hcal.Blocks != nil && rootFn(hcal).Pkg == rootFn(fn).Pkg {
+								var only *ssa.Call
+								n := 0
+								for _, rv := range returnedBy(hcal, ex.Index) {
+									if _, isK := rv.(*ssa.Const); isK {
+										continue
+									}
+									n++
+									only, _ = rv.(*ssa.Call)
+								}
+								if n == 1 && only != nil {
+									cc, isCall, chain = only, true, []*ssa.Call{hc}
+								}
+							}
+						}
+					}
+					if isCall && len(cc.Call.Args) == 2 && strings.HasSuffix(path(cc.Call.Value), ".compare") && path(argOf(cc.Call.Args[0], chain)) == "k" && path(cc.Call.Args[1]) == "c.k" {
 						good = true
 					}
 				}
